@@ -409,9 +409,9 @@ def run(ctx):
     B.flush()
     # ---- 0b. two input classes found while stating the recognition theorems against the C09 / C14 printers (known findings)
     for b, expect in odd_version_las(rng):
-        B.run_one('valid:las-odd-vers', b, {'class': 'FC20d'}, expect=expect, finding_if_wrong='FC20d')
+        B.run_one('valid:las-odd-vers', b, {'class': 'FC20d'}, expect=expect, finding_if_wrong='C20-las-unusual-vers-spelling-ascii')
     for b in sul_like_dat(rng):
-        B.run_one('valid:dat-sul-like', b, {'class': 'FC20e'}, expect='DAT', finding_if_wrong='FC20e')
+        B.run_one('valid:dat-sul-like', b, {'class': 'FC20e'}, expect='DAT', finding_if_wrong='C20-dat-first-line-sul-like-rp66v1')
     B.flush()
     # ---- 1. bundled example files
     for path, code in P['examples']:
